@@ -129,6 +129,10 @@ pub struct Ctx {
     pub viols: BTreeMap<String, VioClass>,
     pub extra: Map<String, Value>,
     deadline: Instant,
+    /// the cap is measured in CPU seconds of this worker (load on the machine must not change what a
+    /// tier covers); `deadline` is only a wall-clock backstop at ten times the cap
+    cpu_cap_s: f64,
+    cpu_start_s: f64,
     pub capped: bool,
     progress: *mut u64,
     start: Instant,
@@ -160,7 +164,7 @@ impl Ctx {
         if self.capped {
             return false;
         }
-        if (self.evals & 0xff) == 0 && Instant::now() > self.deadline {
+        if (self.evals & 0xff) == 0 && (cpu_seconds() - self.cpu_start_s > self.cpu_cap_s || Instant::now() > self.deadline) {
             self.capped = true;
             self.extra.insert("capped_at_index".into(), json!(k));
             return false;
@@ -286,6 +290,13 @@ fn run_dir(id: &str, tier: Tier) -> PathBuf {
     PathBuf::from(format!("{}/target/run/{id}-{}", verif_dir(), tier.name()))
 }
 
+/// CPU time consumed by this process so far (all threads), in seconds
+pub fn cpu_seconds() -> f64 {
+    let mut ts = libc::timespec { tv_sec: 0, tv_nsec: 0 };
+    unsafe { libc::clock_gettime(libc::CLOCK_PROCESS_CPUTIME_ID, &mut ts) };
+    ts.tv_sec as f64 + ts.tv_nsec as f64 * 1e-9
+}
+
 pub fn worker_main(def: &PropDef, tier: Tier, shard: u64, nshards: u64, seed: u64, skip: Vec<u64>, describe: Option<u64>) {
     install_quiet_panic_hook();
     let dir = run_dir(def.id, tier);
@@ -332,7 +343,9 @@ pub fn worker_main(def: &PropDef, tier: Tier, shard: u64, nshards: u64, seed: u6
         last_case: None,
         viols: BTreeMap::new(),
         extra: Map::new(),
-        deadline: Instant::now() + Duration::from_secs(cap),
+        deadline: Instant::now() + Duration::from_secs(cap * 10),
+        cpu_cap_s: cap as f64,
+        cpu_start_s: cpu_seconds(),
         capped: false,
         progress,
         start: Instant::now(),
